@@ -20,7 +20,9 @@ RULE = (
     "is unique so the supplying definition is identified), collapsed from every root; the result (class, k1, k2 or "
     "ConfigurationError) is compared with a reference that explores the (name, source-level) graph: missing edge or "
     "directed cycle reachable => error; a node reachable along two paths (diamond) => excluded; otherwise a tree whose "
-    "breadth-first order decides each key. A class is (part, graph verdict, reachable definitions, depth, whether "
+    "breadth-first order decides each key. For every configuration with 2-3 sources the same expectation is also demanded of "
+    "managers with a history: built with a proper prefix of the sources, sections collapsed (only the root / every section), "
+    "the remaining sources added through add_config_source(), root collapsed again. A class is (part, graph verdict, reachable definitions, depth, whether "
     "BFS and DFS would disagree, whether a self-inherit / overridden definition is involved, outcome)."
 )
 ASSUMPTIONS = [
@@ -28,6 +30,7 @@ ASSUMPTIONS = [
     "Excl: inherit lists naming the same target twice; list-typed keys with prepend/append; inherit-only and default flags; autoload sections",
     "Excl: configurations in which no reachable definition sets 'class' (nothing to collapse; pkgcore raises 'no class specified') - counted in 'unjudged-no-class'",
     "a self-inherit refers to the definition of the same name in the next earlier source; with no earlier definition it is a missing target (error)",
+    "a source added with add_config_source() counts as a later config source: the collapsed result must be the one of a manager given all sources up front, whatever was collapsed before",
     "errors must be pkgcore.config.errors.ConfigurationError; non-termination within 1 s of CPU time is reported as a violation",
     "at most 4 names (5 in the tree part), 3 sources, inherit lists of length <= 2 (<= 4 in the tree part); string-typed keys only",
 ]
@@ -191,8 +194,12 @@ def _setup():
         _ready.append(1)
 
 
-def observe(sources, root):
-    """-> ("error", exc type name) | ("ok", {key: tag or None}) | ("other", text)"""
+def observe(sources, root, history=None):
+    """-> ("error", exc type name) | ("ok", {key: tag or None}) | ("other", text)
+    history None: the manager is built with all sources up front.  history [mode, k]: the manager is built with the
+    first k sources; then, for each remaining source in order, sections are collapsed first (mode "all": every section
+    name known so far, mode "root": only the root; ConfigurationErrors of these warm-up collapses are ignored) and the
+    source is added with add_config_source(); finally the root is collapsed."""
     _setup()
     from pkgcore.config import basics, central, errors
 
@@ -216,7 +223,19 @@ def observe(sources, root):
     signal.setitimer(signal.ITIMER_VIRTUAL, CPU_TIMEOUT)
     try:
         try:
-            manager = central.ConfigManager(real_sources)
+            if history is None:
+                manager = central.ConfigManager(real_sources)
+            else:
+                mode, k = history
+                manager = central.ConfigManager(real_sources[:k])
+                for later in real_sources[k:]:
+                    warm = sorted(manager.sections()) if mode == "all" else [root]
+                    for nm in warm:
+                        try:
+                            manager.collapse_named_section(nm)
+                        except errors.ConfigurationError:
+                            pass
+                    manager.add_config_source(later)
             collapsed = manager.collapse_named_section(root)
         except _CallTimeout:
             return ("other", "no termination within %.0f s CPU" % CPU_TIMEOUT)
@@ -247,12 +266,22 @@ def observe(sources, root):
     return ("ok", res)
 
 
-def judge(sources, root):
-    """-> (msgs, ref, obs); shared by work() and replay()."""
+def judge(sources, root, history=None):
+    """-> (msgs, ref, obs); shared by work() and replay().  The expectation does not depend on the history: sources
+    added later override earlier ones exactly as if they had been given up front."""
     ref = reference(sources, root)
     if ref[0] == "excluded":
         return [], ref, None
-    obs = observe(sources, root)
+    obs = observe(sources, root, history)
+    msgs = _compare(root, ref, obs)
+    if msgs and history is not None:
+        msgs = [f"after building the manager with the first {history[1]} source(s), collapsing {'every section' if history[0] == 'all' else repr(root)} and add_config_source() of the rest: " + m for m in msgs]
+    if not msgs and ref[0] == "ok" and ref[1]["class"] is None:
+        return [], ("unjudged-no-class",), obs
+    return msgs, ref, obs
+
+
+def _compare(root, ref, obs):
     msgs = []
     if obs[0] == "other":
         msgs.append(f"collapse of {root!r}: {obs[1]}; reference says {ref[:2]}")
@@ -262,13 +291,13 @@ def judge(sources, root):
     else:
         exp = ref[1]
         if exp["class"] is None:
-            return [], ("unjudged-no-class",), obs
+            return []
         if obs[0] == "error":
             msgs.append(f"collapse of {root!r} raised ConfigurationError ({obs[1]}) but the inheritance graph is a tree; expected {exp}")
         elif obs[1] != exp:
             bad = [k for k in list(KEYS) + ["extra"] if obs[1].get(k) != exp.get(k)]
             msgs.append(f"collapse of {root!r}: key(s) {bad} supplied by {[obs[1].get(k) for k in bad]}, breadth-first nearest definition is {[exp.get(k) for k in bad]}")
-    return msgs, ref, obs
+    return msgs
 
 
 # ----------------------------------------------------------------------------------------------------------------
@@ -508,14 +537,34 @@ def work(task):
                 viol.append({"sources": sources, "root": root, "msg": msgs[0]})
             elif not samples and ref[0] == "ok" and ref[2]["n"] >= 3:
                 samples.append({"sources": sources, "root": root, "result": obs[1]})
+            if len(sources) < 2 or ref[0] in ("excluded", "unjudged-no-class"):
+                continue
+            for history in histories(len(sources)):
+                if timeouts >= MAX_TIMEOUTS_PER_TASK:
+                    skipped += 1
+                    continue
+                evals += 1
+                hmsgs, href, hobs = judge(sources, root, history)
+                k = f"history-{history[0]}:{href[0] if href[0] != 'error' else 'error-' + href[1]}:{'BAD' if hmsgs else 'ok'}"
+                classes[k] = classes.get(k, 0) + 1
+                if hmsgs:
+                    if hobs and hobs[0] == "other" and "no termination" in hobs[1]:
+                        timeouts += 1
+                    viol.append({"sources": sources, "root": root, "history": list(history), "msg": hmsgs[0]})
     counters = {}
     if skipped:
         counters["cases_skipped_after_timeouts"] = skipped
     return {"evals": evals, "classes": classes, "viol": viol, "samples": samples, "counters": counters}
 
 
+def histories(nsrc):
+    """every way to start with a proper prefix of the sources and add the rest, warming up all sections or only the root"""
+    return [(mode, k) for k in range(1, nsrc) for mode in ("root", "all")]
+
+
 def replay(case):
-    msgs, _ref, _obs = judge(case["sources"], case["root"])
+    h = case.get("history")
+    msgs, _ref, _obs = judge(case["sources"], case["root"], tuple(h) if h else None)
     return msgs
 
 
